@@ -76,8 +76,9 @@ def tx_payload(parent, label):
     raise KeyError(label)
 
 
-def tx_universe(root_kind='easy', mined=True):
-    root = world.easy_root() if root_kind == 'easy' else world.genesis_node()
+def tx_universe(root_kind='easy', mined=True, root_target=None):
+    root = (world.easy_root(target=root_target) if root_target else world.easy_root()) if root_kind == 'easy' \
+        else world.genesis_node()
     return world.Universe(root, tx_payload, None if mined else {'pow_ok': None})
 
 
@@ -129,8 +130,11 @@ def enumerate_histories(uni, prefix, labels, depth, parents_from=0, want_all_lev
     return levels
 
 
-def build(uni, hist, now, validated=True, snapshots=None):
-    """real CoinState for a history; returns (coinstate, ForkChoice reference)"""
+def build(uni, hist, now, validated=True, snapshots=None, lookups=None):
+    """real CoinState for a history; returns (coinstate, ForkChoice reference).
+    lookups: None, or 'head' / 'all' = query the per-key balances (at the head / at every stored block) after every
+    add, as a running node does (miner and wallet read balances between blocks), so that whatever the state caches
+    on demand is hot when the next block arrives"""
     from skepticoin.coinstate import CoinState
     cs = CoinState.empty().add_block_no_validation(uni.root.block)
     fc = refmodel.ForkChoice()
@@ -139,6 +143,13 @@ def build(uni, hist, now, validated=True, snapshots=None):
         snapshots.append(cs)
     for p in hist:
         n = uni.get(p)
+        if lookups:
+            try:
+                for bid in ([cs.current_chain_hash] if lookups == 'head' else list(cs.block_by_hash.keys())):
+                    cs.public_key_balances_by_hash[bid]
+                    cs.unspent_transaction_outs_by_hash[bid]
+            except Exception:
+                pass
         cs = cs.add_block(n.block, now) if validated else cs.add_block_no_validation(n.block)
         fc.add(n)
         if snapshots is not None:
